@@ -270,6 +270,55 @@ def toModel (ue ul : K) (g : GsfRecord K) : GsfRecord K :=
 def ofModel (ue ul : K) (g : GsfRecord K) : GsfRecord K :=
   { g with e := g.e.map (· * ue), delta := g.delta.map (fun d => d.map (· * ul)) }
 
+/-- `miller.vector4to3` as used by `GammaSurface.set` for 4-index (Miller-Bravais) shift vectors `[u v t w]`:
+    refused unless `u + v + t` is (all)close to 0. -/
+def vec4to3? (u v t w : K) : Option (V3 K) :=
+  if absK (u + v + t) ≤ tolA then some ⟨two * u + v, two * v + u, w⟩ else none
+
+/-! #### the GammaSurface OBJECT: `set()` / `model(model=…)` replace the whole state; every query reads the
+    CURRENT state (shift vectors, box, data) — nothing is remembered from earlier data -/
+
+structure GObj (K : Type) where
+  r : GsfRecord K
+
+inductive GOp (K : Type) where
+  | set (r : GsfRecord K)
+  | loadModel (ue ul : K) (m : GsfRecord K)
+
+def GObj.apply (_o : GObj K) : GOp K → GObj K
+  | .set r => ⟨r⟩
+  | .loadModel ue ul m => ⟨ofModel ue ul m⟩
+
+def GObj.run (o : GObj K) (ops : List (GOp K)) : GObj K := ops.foldl GObj.apply o
+
+/-- Cartesian shift vectors of the CURRENT state: `np.dot(self.a1vect, self.box.vects)`. -/
+def GObj.A1 (o : GObj K) : V3 K := cartOf o.r.a1vect o.r.box
+def GObj.A2 (o : GObj K) : V3 K := cartOf o.r.a2vect o.r.box
+
+def zipNodes (a1 a2 e : List K) : List (Node K) :=
+  (a1.zip (a2.zip e)).map (fun t => ⟨t.1, t.2.1, t.2.2⟩)
+
+def GObj.nodesE (o : GObj K) : List (Node K) := zipNodes o.r.a1 o.r.a2 o.r.e
+def GObj.nodesD (o : GObj K) : Option (List (Node K)) := o.r.delta.map (zipNodes o.r.a1 o.r.a2)
+
+/-- nodes of the energy fit / of the plane-separation fit (`none` second level: no delta data). -/
+def GObj.fitE? (o : GObj K) : Option (List (Node K)) := fitNodes? o.nodesE
+def GObj.fitD? (o : GObj K) : Option (List (Node K)) := o.nodesD.bind fitNodes?
+def GObj.cushions? (o : GObj K) : Option (K × K) :=
+  match cushion? o.r.a1, cushion? o.r.a2 with
+  | some c1, some c2 => some (c1, c2)
+  | _, _ => none
+
+def GObj.a12ToPos (o : GObj K) (a : K × K) : V3 K := C18.a12ToPos o.A1 o.A2 a
+def GObj.posToA12? (o : GObj K) (p : V3 K) : Option (K × K) := C18.posToA12? o.A1 o.A2 p
+def GObj.toA12? (o : GObj K) (nn nx ny nz : K) (q : Query K) : Option (K × K) := q.toA12? o.A1 o.A2 nn nx ny nz
+def GObj.posToXY (o : GObj K) (nn nx ny nz : K) (xv : Option (V3 K)) (p : V3 K) : Option (K × K) :=
+  posToXYApi o.A1 o.A2 nn nx ny nz xv p
+def GObj.xyToPos (o : GObj K) (nn nx ny nz : K) (xv : Option (V3 K)) (q : K × K) : Option (V3 K) :=
+  xyToPosApi o.A1 o.A2 nn nx ny nz xv q
+/-- `obj.model(length_unit=, energyperarea_unit=)`. -/
+def GObj.model (ue ul : K) (o : GObj K) : GsfRecord K := toModel ue ul o.r
+
 end conv
 
 /-! ### SDVPN -/
@@ -442,6 +491,8 @@ inductive Op (K : Type) where
   | setCdE (b : Bool)
   | setCdS (b : Bool)
   | setCdT (b : Bool)
+  | setX (x : List K)
+  | setD (d : List (V3 K))
   | solve (kw : SolveKw K) (res : List K)
   | load (o : Obj K)
 
@@ -462,6 +513,8 @@ def Obj.apply (o : Obj K) : Op K → Obj K
   | .setCdE b => { o with s := { o.s with cdiffelastic := b } }
   | .setCdS b => { o with s := { o.s with cdiffsurface := b } }
   | .setCdT b => { o with s := { o.s with cdiffstress := b } }
+  | .setX x => { o with x := x }
+  | .setD d => { o with d := d }
   | .solve kw res => let o' := o.applyKw kw; { o' with d := solveResult res o'.d }
   | .load o' => o'
 
@@ -473,6 +526,42 @@ def Obj.terms (lg : K → K) (gam : V3 K → K) (o : Obj K) (x : List K) (d : Li
 
 def Obj.total (lg : K → K) (gam : V3 K → K) (o : Obj K) (x : List K) (d : List (V3 K)) : K :=
   totalEnergy lg gam o.s x d
+
+/-! ### optional arguments of the energy methods
+
+Every public term method has the signature `(x=None, disregistry=None)` and starts with the block
+`if x is None: x = self.x` / `if disregistry is None: disregistry = self.disregistry`: EACH argument falls back to
+the stored value ON ITS OWN (a one-sided call `elastic_energy(disregistry=d2)` evaluates `d2` on the stored grid). -/
+
+inductive Term where
+  | misfit | elastic | longrange | stress | nonlocal | surface | total
+deriving Repr, DecidableEq
+
+/-- the "Default values are class properties" block. -/
+def Obj.args (o : Obj K) (xo : Option (List K)) (dO : Option (List (V3 K))) : List K × List (V3 K) :=
+  (xo.getD o.x, dO.getD o.d)
+
+/-- one named term for settings `s` on an explicit profile. -/
+def termValue (lg : K → K) (gam : V3 K → K) (s : Settings K) (t : Term) (x : List K) (d : List (V3 K)) : K :=
+  match t with
+  | .misfit => misfitEnergy gam s.T x d
+  | .elastic => elasticEnergy lg s.pi s.Kt s.cdiffelastic x d
+  | .longrange => longrangeEnergy s.pi s.logL s.Kt s.burgers
+  | .stress => stressEnergy s.fullstress s.cdiffstress s.τ1 x d
+  | .nonlocal => nonlocalEnergy s.αs x d
+  | .surface => surfaceEnergy s.cdiffsurface s.β x d
+  | .total => totalEnergy lg gam s x d
+
+/-- `obj.<term>_energy(x=xo, disregistry=dO)` — what the method call returns for ANY subset of the optional arguments. -/
+def Obj.call (lg : K → K) (gam : V3 K → K) (o : Obj K) (t : Term) (xo : Option (List K)) (dO : Option (List (V3 K))) : K :=
+  termValue lg gam o.s t (o.args xo dO).1 (o.args xo dO).2
+
+/-- the x coordinates returned next to the density: `x[1:]` (neighbour difference) or `x[1:-1]` (central). -/
+def densityX (cdiff : Bool) (x : List K) : List K := if cdiff then (x.drop 1).dropLast else x.drop 1
+
+/-- `obj.disldensity(x=xo, disregistry=dO, cdiff=)` → `(newx, ρ)`. -/
+def Obj.density (o : Obj K) (xo : Option (List K)) (dO : Option (List (V3 K))) (cdiff : Bool) : List K × List (V3 K) :=
+  (densityX cdiff (o.args xo dO).1, disldensity cdiff (o.args xo dO).1 (o.args xo dO).2)
 
 /-! ### analytic arctangent profile -/
 
